@@ -14,6 +14,7 @@ import (
 	"encoding/json"
 	"errors"
 	"fmt"
+	"sort"
 	"strconv"
 	"strings"
 	"time"
@@ -238,11 +239,15 @@ type fakes struct {
 // Databases is the first call of a tick: it closes the previous pass and waits for the
 // next input.  Like meta.Client it hands out an immutable snapshot.
 func (f *fakes) Databases() []meta.DatabaseInfo {
-	if f.cur != nil {
+	if f.cur != nil && f.cur.done != nil {
 		close(f.cur.done)
-		f.cur = nil
 	}
-	f.cur = <-f.start
+	c, ok := <-f.start
+	if !ok { // the harness is stopping this service: an empty tick
+		f.cur = &passCtx{}
+		return nil
+	}
+	f.cur = c
 	return f.cur.snapshot
 }
 func (f *fakes) DeleteShardGroup(database, policy string, id uint64) error {
@@ -272,7 +277,9 @@ func (f *fakes) PruneShardGroups() error {
 		c.auth.PruneShardGroups()
 		err = errInjected
 	default:
-		c.auth.PruneShardGroups()
+		if c.auth != nil {
+			c.auth.PruneShardGroups()
+		}
 	}
 	c.calls = append(c.calls, callRec{Kind: "p", OK: err == nil})
 	return err
@@ -303,10 +310,16 @@ func (f *fakes) DeleteShard(id uint64) error {
 	return err
 }
 
-var fk *fakes
+// a real retention.Service wired to the fakes.  Every "pass" case and every scenario gets
+// its own service, so that whatever the service remembers from tick to tick belongs to the
+// case that is being recorded (and is reproduced when the case is replayed).
+type service struct {
+	fk  *fakes
+	svc *retention.Service
+}
 
-func startService() {
-	fk = &fakes{start: make(chan *passCtx)}
+func startService() *service {
+	fk := &fakes{start: make(chan *passCtx)}
 	cfg := retention.NewConfig()
 	cfg.CheckInterval = toml.Duration(500 * time.Microsecond)
 	s := retention.NewService(cfg)
@@ -315,10 +328,23 @@ func startService() {
 	if err := s.Open(); err != nil {
 		panic(err)
 	}
+	return &service{fk: fk, svc: s}
+}
+
+func (s *service) stop() {
+	close(s.fk.start) // the tick in waiting (if any) runs on an empty snapshot
+	done := make(chan struct{})
+	go func() { s.svc.Close(); close(done) }()
+	select {
+	case <-done:
+	case <-time.After(20 * time.Second):
+		panic("retention service does not stop")
+	}
 }
 
 // one tick of the real service on the given input
-func realPass(d passDesc, base int64) (calls []callRec, auth *meta.Data, local []uint64, t0, t1 time.Time) {
+func (s *service) realPass(d passDesc, base int64) (calls []callRec, auth *meta.Data, local []uint64, t0, t1 time.Time) {
+	fk := s.fk
 	authD := d.Auth
 	if authD == nil {
 		authD = d.Snap
@@ -396,10 +422,31 @@ func wellFormed(dbs []dbD) bool {
 	return true
 }
 
-// runPass executes one pass, emits its case and returns the observation
+// runPass executes one pass on a fresh service, emits its case and returns the observation
 func runPass(o *hx.Out, d passDesc, base int64, origin string) passObs {
 	o.Begin("pass", d)
-	calls, auth, local, t0, t1 := realPass(d, base)
+	svc := startService()
+	obs, in, res := svc.tick(o, d, base)
+	svc.stop()
+	ng, ns := 0, 0
+	for _, c := range obs.Calls {
+		switch c.Kind {
+		case "g":
+			ng++
+		case "s":
+			ns++
+		}
+	}
+	db, _ := json.Marshal(d)
+	o.Emit(hx.Case{Kind: "pass", Coq: fmt.Sprintf("CPass (%s) (%s) false", in, res), Desc: d, Obs: obs, Nontrivial: ng+ns > 0,
+		Sig: "pass:" + sig(db), Origin: origin})
+	return obs
+}
+
+// tick runs one tick of this service on d; returns the observation and the Coq terms of the
+// input and of the observed result
+func (svc *service) tick(o *hx.Out, d passDesc, base int64) (passObs, string, string) {
+	calls, auth, local, t0, t1 := svc.realPass(d, base)
 	obs := passObs{Calls: calls, Auth: fromData(auth, base, t0, t1), Local: local}
 	authD := d.Auth
 	if authD == nil {
@@ -414,7 +461,6 @@ func runPass(o *hx.Out, d passDesc, base int64, origin string) passObs {
 			coqMeta(d.Snap, base), coqMeta(authD, base), hx.CoqNList(d.Local), coqOrc(d.Orc))
 	}
 	res := fmt.Sprintf("mkResult %s %s %s", coqCalls(calls), coqMeta(obs.Auth, base), hx.CoqNList(local))
-	coq := fmt.Sprintf("CPass (%s) (%s) false", in, res)
 	ng, ns, nfail := 0, 0, 0
 	for _, c := range calls {
 		switch c.Kind {
@@ -471,10 +517,45 @@ func runPass(o *hx.Out, d passDesc, base int64, origin string) passObs {
 			break
 		}
 	}
+	return obs, in, res
+}
+
+// ---------- scenarios: consecutive ticks of one service ----------
+
+type scenDesc struct {
+	Ticks []passDesc `json:"ticks"`
+}
+
+func emitScen(o *hx.Out, d scenDesc, obs []passObs, ins, ress []string, origin string) {
+	var ts []string
+	nontrivial := false
+	for k := range ins {
+		ts = append(ts, fmt.Sprintf("(%s, %s)", ins[k], ress[k]))
+		for _, c := range obs[k].Calls {
+			if c.Kind != "p" {
+				nontrivial = true
+			}
+		}
+	}
+	o.Count(fmt.Sprintf("scen:ticks=%d", len(d.Ticks)))
 	db, _ := json.Marshal(d)
-	o.Emit(hx.Case{Kind: "pass", Coq: coq, Desc: d, Obs: obs, Nontrivial: ng+ns > 0,
-		Sig: "pass:" + sig(db), Origin: origin})
-	return obs
+	o.Emit(hx.Case{Kind: "scen", Coq: fmt.Sprintf("CScen %s false", hx.CoqList(ts)), Desc: d, Obs: obs, Nontrivial: nontrivial,
+		Sig: "scen:" + sig(db), Origin: origin})
+}
+
+// runScen replays a recorded scenario: the ticks as described, on one fresh service
+func runScen(o *hx.Out, d scenDesc, origin string) {
+	o.Begin("scen", d)
+	base := time.Now().UnixNano()
+	svc := startService()
+	var obs []passObs
+	var ins, ress []string
+	for _, t := range d.Ticks {
+		ob, in, res := svc.tick(o, t, base)
+		obs, ins, ress = append(obs, ob), append(ins, in), append(ress, res)
+	}
+	svc.stop()
+	emitScen(o, d, obs, ins, ress, origin)
 }
 
 func sig(b []byte) string { return fmt.Sprintf("%x", sha1.Sum(b)) }
@@ -740,6 +821,12 @@ func (g *gen) meta(malformed bool) []dbD {
 				}
 				rp.Groups = append(rp.Groups, gr)
 			}
+			// meta.Data keeps a policy's groups sorted by time while IDs follow creation
+			// order: back-filled groups (an older window created later) make the IDs
+			// non-monotone along the list
+			if r.Chance(70) {
+				sort.SliceStable(rp.Groups, func(a, b int) bool { return rp.Groups[a].End < rp.Groups[b].End })
+			}
 			db.RPs = append(db.RPs, rp)
 		}
 		dbs = append(dbs, db)
@@ -909,6 +996,15 @@ func scenario(o *hx.Out, g *gen, malformed bool) int {
 	npass := 1 + r.Intn(4)
 	emitted := 0
 	var prev []dbD
+	var sd scenDesc
+	var allObs []passObs
+	var ins, ress []string
+	o.Begin("scen", sd)
+	svc := startService()
+	defer func() {
+		svc.stop()
+		emitScen(o, sd, allObs, ins, ress, "gen")
+	}()
 	for k := 0; k < npass; k++ {
 		if time.Since(started) > budget {
 			break // margins are only valid for a bounded real-time span
@@ -920,7 +1016,10 @@ func scenario(o *hx.Out, g *gen, malformed bool) int {
 		if prev != nil && r.Chance(20) {
 			d.Snap, d.Auth, d.Stale = prev, state, true // the node's cache lags behind
 		}
-		obs := runPass(o, d, base, "gen")
+		sd.Ticks = append(sd.Ticks, d)
+		o.Begin("scen", sd)
+		obs, in, res := svc.tick(o, d, base)
+		allObs, ins, ress = append(allObs, obs), append(ins, in), append(ress, res)
 		emitted++
 		prev = state
 		state = settle(obs.Auth)
@@ -1051,6 +1150,48 @@ func designed(o *hx.Out) {
 			}
 		}
 	}
+	// a truncated group is aged from its nominal EndTime: TruncatedAt + Duration is long past,
+	// EndTime + Duration is not; points stamped after the truncation time may be in it
+	runPass(o, passDesc{Snap: []dbD{{Name: 0, RPs: []rpD{{Name: 0, Dur: hour, SGDur: 7 * day, Groups: []groupD{
+		{ID: 1, Start: -7 * day, End: 0, Trunc: ip(-7*day + 1), Shards: []shardD{{ID: 2, Owners: []uint64{1}}}},
+		{ID: 3, Start: -14 * day, End: -7 * day, Trunc: ip(-10 * day), Shards: []shardD{{ID: 4, Owners: []uint64{1}}}},
+	}}}}}, Local: []uint64{2, 4}, Orc: []int{}}, time.Now().UnixNano(), "designed")
+	// back-filled groups: the list is sorted by time, the IDs are not (stored order [5,2,9,1]);
+	// every expired one must be found and marked
+	runPass(o, passDesc{Snap: []dbD{{Name: 0, RPs: []rpD{{Name: 0, Dur: hour, SGDur: hour, Groups: []groupD{
+		{ID: 5, Start: -9 * hour, End: -8 * hour, Shards: []shardD{{ID: 11}}},
+		{ID: 2, Start: -8 * hour, End: -7 * hour, Shards: []shardD{{ID: 12}}},
+		{ID: 9, Start: -7 * hour, End: -6 * hour, Shards: []shardD{{ID: 13}}},
+		{ID: 1, Start: -6 * hour, End: -5 * hour, Shards: []shardD{{ID: 14}}},
+		{ID: 3, Start: 0, End: hour, Shards: []shardD{{ID: 15}}},
+	}}}}}, Local: []uint64{11, 12, 13, 14, 15}, Orc: []int{}}, time.Now().UnixNano(), "designed")
+	// several ticks of one service: a group already marked deleted in the metadata; the local
+	// DeleteShard fails on the first tick and must be tried again on the next ones; a shard of
+	// the same group that appears later (restore, late hinted hand-off) is removed as well
+	{
+		snap := []dbD{{Name: 0, RPs: []rpD{{Name: 0, Dur: hour, SGDur: hour, Groups: []groupD{
+			{ID: 1, Start: -5 * hour, End: -4 * hour, Del: ip(-60 * sec), Shards: []shardD{{ID: 7}, {ID: 8}}},
+			{ID: 2, Start: 0, End: hour, Shards: []shardD{{ID: 9}}},
+		}}}}}
+		runScen(o, scenDesc{Ticks: []passDesc{
+			{Snap: snap, Local: []uint64{7, 9}, Orc: []int{1}},
+			{Snap: snap, Local: []uint64{7, 9}, Orc: []int{1}},
+			{Snap: snap, Local: []uint64{7, 9}, Orc: []int{}},
+			{Snap: snap, Local: []uint64{9, 8}, Orc: []int{}},
+		}}, "designed")
+		// the group is expired by this node itself; marking succeeds, the local delete fails twice
+		snap2 := []dbD{{Name: 0, RPs: []rpD{{Name: 0, Dur: hour, SGDur: hour, Groups: []groupD{
+			{ID: 1, Start: -5 * hour, End: -4 * hour, Shards: []shardD{{ID: 7}}},
+		}}}}}
+		after := []dbD{{Name: 0, RPs: []rpD{{Name: 0, Dur: hour, SGDur: hour, Groups: []groupD{
+			{ID: 1, Start: -5 * hour, End: -4 * hour, Del: ip(-1), Shards: []shardD{{ID: 7}}},
+		}}}}}
+		runScen(o, scenDesc{Ticks: []passDesc{
+			{Snap: snap2, Local: []uint64{7}, Orc: []int{0, 1}},
+			{Snap: after, Local: []uint64{7}, Orc: []int{1}},
+			{Snap: after, Local: []uint64{7}, Orc: []int{}},
+		}}, "designed")
+	}
 	// exp: exact boundary End + Duration == t, one nanosecond either side, infinite, deleted
 	for _, dur := range []int64{0, 1, hour, -hour} {
 		for _, delta := range []int64{-1, 0, 1} {
@@ -1074,7 +1215,6 @@ func main() {
 	f := hx.ParseFlags()
 	o := hx.NewOut(f.OutDir)
 	defer o.Close()
-	startService()
 
 	if f.In != "" {
 		for _, in := range hx.ReadInputs(f.In) {
@@ -1085,6 +1225,12 @@ func main() {
 					panic(err)
 				}
 				runPass(o, d, time.Now().UnixNano(), "replay")
+			case "scen":
+				var d scenDesc
+				if err := json.Unmarshal(in.Desc, &d); err != nil {
+					panic(err)
+				}
+				runScen(o, d, "replay")
 			case "exp":
 				var d expDesc
 				json.Unmarshal(in.Desc, &d)
@@ -1093,16 +1239,26 @@ func main() {
 				var d dropDesc
 				json.Unmarshal(in.Desc, &d)
 				runDrop(o, d, "replay")
+			case "store":
+				var d storeDesc
+				if err := json.Unmarshal(in.Desc, &d); err != nil {
+					panic(err)
+				}
+				runStore(o, d, "replay")
 			}
 		}
 		return
 	}
 	designed(o)
+	designedStore(o)
 	r := hx.NewRand(f.Seed)
 	g := &gen{r: r}
 	n := 0
 	for it := 0; n < f.N; it++ {
 		switch {
+		case it%12 == 7:
+			runStore(o, genStore(r), "gen")
+			n++
 		case it%6 == 4:
 			runExp(o, genExp(r), "gen")
 			n++
